@@ -15,7 +15,7 @@ from fractions import Fraction
 import numpy as np
 
 from .. import gen
-from ..common import cnat, cq, cbool, clist, coq_eval
+from ..common import cnat, cq, cbool, clist, safe_coq_eval
 from ..impl import Impl
 
 IMPORTS = ['Base.Util', 'Base.QMat', 'Model.Embedding']
@@ -48,14 +48,23 @@ PRELUDE = ('Definition qz (q : Q) := let r := Qred q in (Qnum r, Zpos (Qden r)).
            'Definition vz (v : list Q) := map qz v.\nDefinition mz (m : list (list Q)) := map vz m.\n')
 
 
-def ceval(tag, exprs, **kw):
+class ModelDead(Exception):
+    """The model no longer evaluates (already recorded in proof_broken by safe_coq_eval).  Raised inside the chains below, which
+    are pure model-side work (wrapper models fed with the captured solver output, validators run inside Coq), and caught at
+    the chain boundary in run(): the chain is abandoned, the dense NumPy oracles have judged every fit before."""
+
+
+def ceval(ctx, tag, exprs, **kw):
     # about eight shards per call: coq_eval runs the shards of one call in parallel
     kw.setdefault('shard', max(1, -(-len(exprs) // 8)))
     t = time.time()
     try:
-        return coq_eval(tag, IMPORTS, exprs, prelude=PRELUDE, **kw)
+        vals = safe_coq_eval(ctx, tag, IMPORTS, exprs, prelude=PRELUDE, **kw)
     finally:
         COQ_WALL[tag] = round(COQ_WALL.get(tag, 0) + time.time() - t, 1)
+    if vals is None:
+        raise ModelDead(tag)
+    return vals
 
 
 def fr(p):
@@ -300,18 +309,18 @@ def run_spectral_correspondence(ctx, items):
         return
     args = [spectral_model_args(c, o) for (c, o) in items]
     ident = '(fun q : Q => q)'
-    keys1 = [frv(v) for v in ceval('c09sk', ['vz (spectral_sqrt_keys %s %s)' % (a['adj'], a['reg']) for a in args])]
+    keys1 = [frv(v) for v in ceval(ctx, 'c09sk', ['vz (spectral_sqrt_keys %s %s)' % (a['adj'], a['reg']) for a in args])]
     t1 = [tab(k, np.sqrt(np.array([float(x) for x in k]))) if a['rw'] else ident for a, k in zip(args, keys1)]
-    keys2 = [frv(v) for v in ceval('c09sn', ['vz (spectral_norm_keys %s %s %s %s %s %s %s)' % (
+    keys2 = [frv(v) for v in ceval(ctx, 'c09sn', ['vz (spectral_norm_keys %s %s %s %s %s %s %s)' % (
         t, cbool(a['rw']), a['adj'], a['reg'], a['sv'], a['sV'], a['argsort']) for a, t in zip(args, t1)])]
     t2 = [tab(k, np.sqrt(np.array([float(x) for x in k]))) if c['normalized'] else ident
           for (c, _), k in zip(items, keys2)]
-    fits = ceval('c09sf', [
+    fits = ceval(ctx, 'c09sf', [
         "let '(a, b, c) := spectral_fit %s %s %s %s %s %s %s %s %s in (vz a, mz b, mz c)" % (
             ta, tb, cbool(a['rw']), cbool(c['normalized']), a['adj'], a['reg'], a['sv'], a['sV'], a['argsort'])
         for (c, _), a, ta, tb in zip(items, args, t1, t2)])
     # run-time check of the solver contract (hypothesis of spectral_backtransform) on the captured pairs
-    contract = ceval('c09sc', [
+    contract = ceval(ctx, 'c09sc', [
         'map (fun j => all_le %s (vsub (spectral_operator %s %s %s %s (col j %s)) (vscale (nthq %s j) (col j %s)))) (seq 0 %d)' % (
             cq(EPS_Q), ta, cbool(a['rw']), a['adj'], a['reg'], a['sV'], a['sv'], a['sV'], a['k'])
         for a, ta in zip(args, t1)])
@@ -520,7 +529,7 @@ def run_gsvd_correspondence(ctx, items):
 
     def powtab(keys, p):
         return tab(keys, np.power(np.array([float(x) for x in keys]), float(p)))
-    wk = [(frv(x), frv(y)) for (x, y) in ceval('c09gw', ["let '(a, b) := gsvd_weight_keys %d %d %s %s in (vz a, vz b)" % (
+    wk = [(frv(x), frv(y)) for (x, y) in ceval(ctx, 'c09gw', ["let '(a, b) := gsvd_weight_keys %d %d %s %s in (vz a, vz b)" % (
         a['nr'], a['nc'], a['A'], a['reg']) for a in args])]
     orc = []
     for (c, _), a, (kr, kc) in zip(items, args, wk):
@@ -533,12 +542,12 @@ def run_gsvd_correspondence(ctx, items):
     def base(a, o):
         return '%s %s %s %s' % (o['prow'], o['pcol'], o['psl'], o['psr']), '%d %d %s %s %s %s %s %s' % (
             a['nr'], a['nc'], a['A'], a['reg'], a['sU'], a['sS'], a['sV'], a['index'])
-    nk = [(frv(x), frv(y)) for (x, y) in ceval('c09gn', ["let '(a, b) := gsvd_norm_keys %s %s in [vz a; vz b]" % base(a, o)
+    nk = [(frv(x), frv(y)) for (x, y) in ceval(ctx, 'c09gn', ["let '(a, b) := gsvd_norm_keys %s %s in [vz a; vz b]" % base(a, o)
                                                         for a, o in zip(args, orc)])]
     for (c, _), o, (k1, k2) in zip(items, orc, nk):
         keys = list(k1) + list(k2)
         o['norm'] = tab(keys, np.sqrt(np.array([float(x) for x in keys]))) if c['normalized'] and keys else ident
-    fits = ceval('c09gf', [
+    fits = ceval(ctx, 'c09gf', [
         "let '(s, ul, vr, er, ec) := gsvd_fit %s %s %s %s in (vz s, mz ul, mz vr, mz er, mz ec)" % (
             base(a, o)[0], o['norm'], cbool(c['normalized']), base(a, o)[1]) for (c, _), a, o in zip(items, args, orc)])
     # predict on the rows the implementation was asked about, with the FITTED attributes as predict uses them
@@ -553,9 +562,9 @@ def run_gsvd_correspondence(ctx, items):
                                             qm(out['right']), x)
             pexpr.append((o, common, c['normalized']))
             pwho.append((n_item, int(key)))
-    pk = [fr(x) for x in ceval('c09gp', ['qz (gsvd_predict_norm_key %s %s %s %s)' % (o['prow'], o['pcol'], o['psr'], common)
+    pk = [fr(x) for x in ceval(ctx, 'c09gp', ['qz (gsvd_predict_norm_key %s %s %s %s)' % (o['prow'], o['pcol'], o['psr'], common)
                                      for (o, common, _) in pexpr])] if pexpr else []
-    preds = ceval('c09gq', ['vz (gsvd_predict_row %s %s %s %s %s %s)' % (
+    preds = ceval(ctx, 'c09gq', ['vz (gsvd_predict_row %s %s %s %s %s %s)' % (
         o['prow'], o['pcol'], o['psr'], tab([k], [np.sqrt(float(k))]) if nrm else ident, cbool(nrm), common)
         for (o, common, nrm), k in zip(pexpr, pk)]) if pexpr else []
     for (case, out), fit in zip(items, fits):
@@ -591,9 +600,9 @@ def run_pca_correspondence(ctx, items):
         a = dense(case['m'])
         sol = out['solver']
         args.append(dict(nr=a.shape[0], nc=a.shape[1], A=qm(a.tolist()), sU=qm(sol['left']), sS=qv(sol['values']), sV=qm(sol['right'])))
-    nk = [frv(v) for v in ceval('c09pn', ['vz (map sqnorm (%s ++ %s))' % (a['sU'], a['sV']) for a in args])]
+    nk = [frv(v) for v in ceval(ctx, 'c09pn', ['vz (map sqnorm (%s ++ %s))' % (a['sU'], a['sV']) for a in args])]
     tabs = [tab(k, np.sqrt(np.array([float(x) for x in k]))) if c['normalized'] else ident for (c, _), k in zip(items, nk)]
-    fits = ceval('c09pf', ["let '(a, b, c) := pca_fit %s %s %s %s %s in (mz a, mz b, vz c)" % (
+    fits = ceval(ctx, 'c09pf', ["let '(a, b, c) := pca_fit %s %s %s %s %s in (mz a, mz b, vz c)" % (
         t, cbool(c['normalized']), a['sU'], a['sS'], a['sV']) for (c, _), a, t in zip(items, args, tabs)])
     pexpr, pwho = [], []
     for n_item, ((c, out), a) in enumerate(zip(items, args)):
@@ -603,8 +612,8 @@ def run_pca_correspondence(ctx, items):
                 pexpr.append(('(pca_mean_col %d %d %s) %s %s %s' % (a['nr'], a['nc'], a['A'], qv(out['singular_values']),
                                                                    qm(out['right']), qv(am[int(key)].tolist())), c['normalized']))
                 pwho.append((n_item, int(key)))
-    pk = [fr(x) for x in ceval('c09pk', ['qz (pca_predict_norm_key %s)' % e for (e, _) in pexpr])] if pexpr else []
-    preds = ceval('c09pq', ['vz (pca_predict_row %s %s %s)' % (tab([k], [np.sqrt(float(k))]) if nrm else ident, cbool(nrm), e)
+    pk = [fr(x) for x in ceval(ctx, 'c09pk', ['qz (pca_predict_norm_key %s)' % e for (e, _) in pexpr])] if pexpr else []
+    preds = ceval(ctx, 'c09pq', ['vz (pca_predict_row %s %s %s)' % (tab([k], [np.sqrt(float(k))]) if nrm else ident, cbool(nrm), e)
                             for (e, nrm), k in zip(pexpr, pk)]) if pexpr else []
     for (case, out), fit in zip(items, fits):
         nr, nc = case['m']['shape']
@@ -681,9 +690,9 @@ def run_rp_correspondence(ctx, items):
         regl = '(get_regularization %s %s)' % (cq(Fraction(case['regularization'])), cbool(strongly_connected(a)))
         args.append('%s %d %d %s %s %s %d %s' % (cbool(case['random_walk']), n, case['n_components'], adj, regl,
                                                  cq(Fraction(case['alpha'])), case['n_iter'], qm(out['random_matrix'])))
-    keys = [frv(v) for v in ceval('c09rk', ['vz (random_projection_norm_keys %s)' % a for a in args])]
+    keys = [frv(v) for v in ceval(ctx, 'c09rk', ['vz (random_projection_norm_keys %s)' % a for a in args])]
     tabs = [tab(k, np.sqrt(np.array([float(x) for x in k]))) if c['normalized'] else ident for (c, _), k in zip(items, keys)]
-    fits = ceval('c09rf', ['mz (random_projection_fit %s %s %s %s)' % (
+    fits = ceval(ctx, 'c09rf', ['mz (random_projection_fit %s %s %s %s)' % (
         t, cbool(a.split(' ')[0] == 'true'), cbool(c['normalized']), a.split(' ', 1)[1]) for (c, _), a, t in zip(items, args, tabs)])
     for (case, out), fit in zip(items, fits):
         k = case['n_components']
@@ -782,7 +791,7 @@ def run_louvain_correspondence(ctx, items):
         exprs.append('match louvain_embedding_fit %s %d %d %s %s %s with None => None | Some (e, c) => '
                      'Some (mz e, match c with None => None | Some c => Some (mz c) end) end' % (
                          which, nr, nc, qm(a.tolist()), clist(lab, cnat), sec))
-    vals = ceval('c09lv', exprs)
+    vals = ceval(ctx, 'c09lv', exprs)
     for (case, out), v in zip(items, vals):
         ctx.count('corr:LouvainEmbedding', ('corr', case), True)
         if v is None:
@@ -825,7 +834,7 @@ def run_validators(ctx, eig_items, svd_items):
             who.append((case['kind'] + '.fit', case, j))
     if not exprs:
         return 0
-    vals = ceval('c09val', exprs)
+    vals = ceval(ctx, 'c09val', exprs)
     for (site, case, j), ok in zip(who, vals):
         ctx.count('validator:' + site, ('val', case, j), True)
         if ok is not True:
@@ -840,6 +849,8 @@ class Recorder:
     def __init__(self):
         self.calls = []
         self.margin_dropped = 0
+        self.proof_broken = []      # filled by safe_coq_eval when the model no longer evaluates
+        self.extra = {}
 
     def count(self, *a, **k):
         self.calls.append(('count', a, k))
@@ -851,6 +862,9 @@ class Recorder:
         for name, a, k in self.calls:
             getattr(ctx, name)(*a, **k)
         ctx.margin_dropped += self.margin_dropped
+        ctx.proof_broken.extend(self.proof_broken[:max(0, 12 - len(ctx.proof_broken))])
+        if self.extra.get('model_dead'):
+            ctx.extra['model_dead'] = sorted(set(ctx.extra.get('model_dead', [])) | set(self.extra['model_dead']))
 
 
 def arpack_refused(r):
@@ -1010,8 +1024,14 @@ def run(ctx, scratch):
               (run_pca_correspondence, (corr_pca,)), (run_rp_correspondence, (corr_rp,)),
               (run_louvain_correspondence, (corr_lv,)), (run_validators, (val_eig, val_svd))]
     recs = [Recorder() for _ in chains]
+
+    def chain(f, rec, *a):
+        try:
+            return f(rec, *a)
+        except ModelDead:
+            return 0
     with ThreadPoolExecutor(max_workers=len(chains)) as pool:
-        futs = [pool.submit(f, rec, *a) for (f, a), rec in zip(chains, recs)]
+        futs = [pool.submit(chain, f, rec, *a) for (f, a), rec in zip(chains, recs)]
         results = [f.result() for f in futs]
     for rec in recs:
         rec.replay(ctx)
